@@ -566,7 +566,7 @@ def correspond_dof(tier):
 def correspond(tier):
     from . import c19b
     return ([c19b.correspond_constants(tier), correspond_fit(tier), correspond_dof(tier), c19b.correspond_bisect(tier), c19b.correspond_bisect_q(tier)] + c19b.correspond_optnu(tier)
-            + [c19b.correspond_modes(tier), c19b.correspond_trainer(tier), c19b.correspond_handoff(tier),
+            + [c19b.correspond_modes(tier), c19b.correspond_trainer(tier), c19b.correspond_sequence(tier), c19b.correspond_handoff(tier),
                c19b.correspond_property(tier)])
 
 
@@ -725,6 +725,9 @@ def _oracle_case(case):
     if kind == "handoff":
         from . import c19b
         return c19b.handoff_oracle(case["handoff_cfg"])
+    if kind == "sequence":
+        from . import c19b
+        return c19b.sequence_oracle(case["sequence_cfg"], case.get("level") == "statement")
     if kind == "dof":
         return dof_oracle(hex2f(case["dof_hex"]), case["fb"])
     if kind == "recovery":
@@ -774,6 +777,17 @@ def search(tier, hints):
         shift = [0.0] * d if rng.random() < 0.3 else [float(math.ldexp(rng.uniform(-8, 8) * rg[a], pw[a])) for a in range(d)]
         return perm, pw, shift
 
+    # 0. a Trainer sequence disagreed: look first for a fit that violates a clause of the statement against its own rows (bounding
+    #    box, positive definiteness, nu range) -- among the hinted sequences, then among the contract-and-drift family
+    seq_hints = [h["sequence_cfg"] for h in hints if "sequence_cfg" in h]
+    if seq_hints or any("signature_changed" in h or "handoff_cfg" in h for h in hints):
+        from . import c19b
+        pool = seq_hints + [cs["sequence_cfg"] for cs in c19b.sweep_cases(tier) if cs["kind"] == "sequence"]
+        for cfg in pool[:40]:
+            if consider({"kind": "sequence", "sequence_cfg": cfg, "level": "statement"}):
+                return found
+            if found:
+                break
     # 1. inputs on which the correspondence disagreed
     for h in hints:
         if "trainer_case" in h:
@@ -782,6 +796,10 @@ def search(tier, hints):
             continue
         if "handoff_cfg" in h:
             if consider({"kind": "handoff", "handoff_cfg": h["handoff_cfg"]}):
+                return found
+            continue
+        if "sequence_cfg" in h:
+            if consider({"kind": "sequence", "sequence_cfg": h["sequence_cfg"]}):
                 return found
             continue
         if h.get("kind") == "recovery":
